@@ -215,3 +215,57 @@ def run(F, rep, tier):
                       "%s(): digits are parsed with %s::from_str_radix%s but the function builds Value::%s: a literal outside that type's range becomes an unrelated value instead of being rejected" % (
                           name, ty, " and cast with `as`" if casts else "", "/".join(sorted(built))), sample={"fn": name, "parsed_as": ty, "builds": sorted(built)})
     rep.floor("C13-R7", "from_str_radix call sites in the literal evaluators", n7, 4)
+    run_r8(F, rep)
+
+
+def run_r8(F, rep):
+    """C13-R8: float-valued literal evaluators return what the correctly rounded parser returns"""
+    from lib import guards as G
+    rep.rule("C13-R8", "float-valued literal evaluators (float, integer, scientific): the value is the result of str::parse::<f64>() on text spelled from the literal's tokens; "
+                      "float arithmetic (* / + - powi powf on an f64) between the digits and the result rounds twice and is allowed only where no decimal spelling exists "
+                      "(scientific() with a fractional exponent: under a guard on the exponent's fractional digits)")
+    items = {it["name"]: it for it in F.syn("mech_interpreter.lib") if it["k"] == "fn" and it.get("mod", "").endswith("literals") and it["name"] in ("float", "integer", "scientific")}
+    if not rep.check(len(items) == 3, "C13-R8", "anchor:float-evaluators", "expected float(), integer(), scientific() in interpreter::literals, found %s" % sorted(items)):
+        return
+    n_parse = 0
+    for name, it in sorted(items.items()):
+        body = it["body"]
+        parses = [m for m in find(body, "mcall") if m[2] == "parse" and (m[3] or "").replace(" ", "").lstrip(":") == "<f64>"]
+        n_parse += len(parses)
+        rep.check(bool(parses), "C13-R8", "%s:parses-f64" % name, "%s() no longer obtains its value from str::parse::<f64>()" % name, "%s (mech_interpreter.lib)" % name)
+        # the exponent's fractional digits: 3rd component of the exponent tuple, and strings collected from it
+        frac_vars = set()
+        if name == "scientific":
+            for st in find(body, "let"):
+                if st[1][0] == "ptype" and st[1][1][0] == "ptuple" and len(st[1][1][1]) == 3:
+                    p3 = st[1][1][1][2]
+                    if p3[0] == "pident":
+                        frac_vars.add(p3[1])
+                elif st[1][0] == "ptuple" and len(st[1][1]) == 3 and st[1][1][2][0] == "pident":
+                    frac_vars.add(st[1][1][2][1])
+            changed = True
+            while changed:
+                changed = False
+                for st in find(body, "let"):
+                    if st[1][0] == "pident" and st[2] is not None and st[1][1] not in frac_vars and any(n[0] == "path" and n[1] in frac_vars for n in walk(st[2])) and \
+                            not any(n[0] == "macro" for n in walk(st[2])):
+                        frac_vars.add(st[1][1])
+                        changed = True
+        ariths = []
+        for e, facts in G.sites(body, "bin"):
+            if e[1] in ("*", "/", "+", "-", "*=", "/=", "+=", "-=") and re.search(r"f64|powf|powi", render(e)):
+                ariths.append((e, facts))
+        for e, facts in G.sites(body, "mcall"):
+            if e[2] in ("powf", "powi", "mul_add", "exp", "exp2", "exp10") and not any(e is x or any(y is e for y in walk(x)) for x, _ in ariths):
+                ariths.append((e, facts))
+        for e, facts in ariths:
+            guarded = False
+            for c, pol in G.atoms(facts):
+                if not pol and any(n[0] == "path" and n[1] in frac_vars for n in walk(c)):
+                    guarded = True
+            key = "%s:float-arithmetic:%s" % (name, re.sub(r"\s", "", render(e))[:50])
+            rep.check(guarded, "C13-R8", key if not guarded else "%s:arithmetic-only-for-fractional-exponent" % name,
+                      "%s() computes `%s` on the way to its result%s: the literal is rounded twice (e.g. 4.35e2 -> 434.99999999999994, a 17-digit mantissa divided by a power of ten is 1 ulp off) instead of "
+                      "being the nearest f64 of its spelling" % (name, render(e)[:70], "" if not frac_vars else " on paths where the exponent has no fractional digits"),
+                      "%s (mech_interpreter.lib)" % name, sample={"fn": name, "arithmetic": render(e)[:70], "guard_vars": sorted(frac_vars)})
+    rep.floor("C13-R8", "parse::<f64>() sites in the float evaluators", n_parse, 3)
